@@ -14,6 +14,7 @@ import vlib
 from checks import span_common
 
 ACTIONS = ["Open", "Enter", "Exit", "With", "Spawn", "Poll", "Yield", "Complete", "Panic"]
+DISCARD = ["Discard", "DropTask"]
 
 
 def stores_arg(r, cfg):
@@ -27,7 +28,7 @@ def run(ctx):
     if ctx.quick:
         configs = [
             {"cfg": "Ctxt_quick.cfg", "workers": 4},
-            {"cfg": "Ctxt_quick2.cfg", "workers": 4},
+            {"cfg": "Ctxt_quick2.cfg", "workers": 4, "actions": ACTIONS + DISCARD},
         ]
     else:
         configs = [
